@@ -590,7 +590,20 @@ def run_corrupt(spec):
         for fm in ["json", "pickle", "YAML", "", "yml", 0]:
             expect_valueerror("load_cider_model:unsupported-format", lambda fm=fm: load_cider_model(ROOT + "/m.yaml", fm))
         # payloads that are not mapped functionals
-        payloads = [fl.as_dict(), [1, 2, 3], "just a string", {"kernels": [], "settings": None}, model.kernels[0], model.settings, 3.5]
+        import types
+
+        # incl. look-alikes: objects that carry .settings / .kernels but are not mapped functionals
+        payloads = [
+            fl.as_dict(),
+            [1, 2, 3],
+            "just a string",
+            {"kernels": [], "settings": None},
+            model.kernels[0],
+            model.settings,
+            3.5,
+            types.SimpleNamespace(settings=model.settings, kernels=list(model.kernels), libxc_baseline=None),
+            types.SimpleNamespace(settings=None),
+        ]
         for k, pl in enumerate(payloads):
             p = ROOT + "/p%d.yaml" % k
             with open(p, "w") as f:
